@@ -942,12 +942,12 @@ func (w *wbuild) checkBuild(res *InvResult, req BuildReq, opts InvOpts, cm *cach
 	if signalled {
 		fs := w.fs
 		for _, e := range res.Events {
-			if e.Kind == "cmd" && fs.sigObserved != 0 && e.Start > fs.sigObserved {
+			if (e.Kind == "cmd" || e.Kind == "check") && fs.sigObserved != 0 && e.Start > fs.sigObserved {
 				report("C18", "target-started-after-interrupt", "start-after-handler", fmt.Sprintf("%s started at step %d although the interrupt was delivered at step %d and the signal handler had finished at step %d", e.Label, e.Start, fs.sigStep, fs.sigObserved))
 			}
 		}
 		for _, e := range res.Events {
-			if e.Kind == "cmd" && e.StartMS > fs.sigSimMS {
+			if (e.Kind == "cmd" || e.Kind == "check") && e.StartMS > fs.sigSimMS {
 				report("C18", "target-started-after-interrupt", "sim-time", fmt.Sprintf("SIGINT was delivered at simulated t=%dms, but the command of %s was started at t=%dms", fs.sigSimMS, e.Label, e.StartMS))
 			}
 		}
@@ -1243,10 +1243,19 @@ func (w *wbuild) checkBuild(res *InvResult, req BuildReq, opts InvOpts, cm *cach
 		tF := int64(-1)
 		for _, e := range res.Events {
 			if e.Kind == "cmd" && status[e.Label] == "failed" && e.EndMS > 0 || e.Kind == "cmd" && status[e.Label] == "failed" && e.End > 0 {
-				if tF < 0 || e.EndMS < tF {
-					tF = e.EndMS
+				// grog observes the failure when the command ends, or - for a command that exited
+				// 0 - after the output checks that follow it (each takes CheckMS)
+				at := e.EndMS
+				if sp := u.Specs[e.Label]; sp != nil && e.Exit == 0 && !e.Killed {
+					at += int64(len(sp.Checks) * sp.CheckMS)
+				}
+				if tF < 0 || at < tF {
+					tF = at
 				}
 			}
+		}
+		if pl := simos.Plan; pl != nil && pl.SlowCopy > 0 {
+			tF = -1 // slow disk: a missing output is only noticed while outputs are being written, at an unknown later instant
 		}
 		if tF >= 0 {
 			for _, e := range res.Events {
